@@ -31,7 +31,7 @@ func init() {
 		id:    "C10",
 		title: "Any font that was read can be written and re-read without further change",
 		explanation: "Decides structural clauses of C10: (a) name provenance — every conversion of non-constant data to a PostScript name in the interpreter is fed from bytes that passed the regular-character test, or is used for look-ups only, so that glyph names, encoding entries and the font name of a font that was read are accepted by the name serialiser (whose panic is the only data-dependent failure of the writer); " +
-			"(b) the path-command switch of the encoder is exhaustive and every GlyphOp literal in the reader has the number of coordinates the encoder indexes; (c) template escaping — every string-typed field is written through PS, PN or the comment sanitiser, or is length-prefixed binary; a field written raw is also written through PN, which rejects line breaks; (d) quantisation sources — the only rounding calls on the write path are the two width roundings, and the only lossy number path is appendNumber (C20), which is a projection: integral values pass unchanged, every denominator 1..107 is tried and the best one taken, the quotient written is the value returned (so a value that was read back is written as itself); (e) the default-elision window and the defaults agree (shared with C09). " +
+			"(b) the path-command switch of the encoder is exhaustive and every GlyphOp literal in the reader has the number of coordinates the encoder indexes; (c) template escaping — every string-typed field is written through PS, PN or the comment sanitiser, or is length-prefixed binary; a field written raw is also written through PN, which rejects line breaks, or only ever holds constant text or a time in a constant layout; the string function of the template, evaluated for every byte alone, next to parentheses and before a digit, writes text that the PLRM's string syntax reads back as the same bytes (a string that was read is written back as itself); (d) quantisation sources — the only rounding calls on the write path are the two width roundings, and the only lossy number path is appendNumber (C20), which is a projection: integral values pass unchanged, every denominator 1..107 is tried and the best one taken, the quotient written is the value returned (so a value that was read back is written as itself); (e) the default-elision window and the defaults agree (shared with C09). " +
 			"It does NOT decide equality under tolerance, idempotence of the second cycle as a numerical statement, nor non-finite numbers.",
 		trusted:     []string{"text/template/parse", "go/ssa"},
 		assumptions: []string{"finite numbers"},
@@ -357,6 +357,8 @@ func runRoundTrip(c *Ctx, closure bool) {
 	c.commentSanitiser()
 
 	if closure {
+		// ---- a string that was read is written in a form that reads back as itself (ext_a.go)
+		c.writtenStringsReadBack(tk, rk)
 		c.nameProvenance()
 		c.roundingSources()
 		c.quantisationRule() // ext_a.go
@@ -827,55 +829,83 @@ func (c *Ctx) templateEscaping(tk []tmplKey) {
 	for i := 0; i < fi.NumFields(); i++ {
 		ftype[fi.Field(i).Name()] = fi.Field(i).Type()
 	}
+	// what the function at the end of a pipeline does with a byte that would change the program
+	// text is decided by evaluating it (ext_a.go), not by its name in the function map
+	st := c.aInitFrom("type1", c.aInit("postscript"))
+	type fclass struct{ class, why string }
+	classes := map[string]fclass{}
+	classOf := func(pipe string) fclass {
+		if k, ok := classes[pipe]; ok {
+			return k
+		}
+		cl, why := c.tmplFuncClass(st, pipe)
+		classes[pipe] = fclass{cl, why}
+		return classes[pipe]
+	}
 	viaPN := map[string]bool{}
 	type use struct {
 		field, pipe string
 		pos         string
+		onComment   bool
 	}
 	var uses []use
-	for _, it := range t.allItems() {
-		an, ok := it.node.(*parse.ActionNode)
-		if !ok {
-			continue
-		}
-		cmds := an.Pipe.Cmds
-		if len(cmds) == 0 {
-			continue
-		}
-		field := ""
-		isVar := false
-		first := cmds[0]
-		if len(first.Args) == 1 {
-			switch a := first.Args[0].(type) {
-			case *parse.FieldNode:
-				if len(a.Ident) == 1 {
+	for _, sec := range t.order {
+		line := ""
+		for _, it := range t.items(sec) {
+			if it.action == "" {
+				if i := strings.LastIndexAny(it.text, "\r\n\f"); i >= 0 {
+					line = it.text[i+1:]
+				} else {
+					line += it.text
+				}
+				continue
+			}
+			an, ok := it.node.(*parse.ActionNode)
+			if !ok {
+				continue
+			}
+			// the text of the line in front of the action: a comment line has a % outside a string
+			onComment := strings.Contains(line, "%") && !strings.Contains(line, "(")
+			line += "⟦⟧"
+			cmds := an.Pipe.Cmds
+			if len(cmds) == 0 {
+				continue
+			}
+			field := ""
+			isVar := false
+			first := cmds[0]
+			if len(first.Args) == 1 {
+				switch a := first.Args[0].(type) {
+				case *parse.FieldNode:
+					if len(a.Ident) == 1 {
+						field = a.Ident[0]
+					}
+				case *parse.VariableNode:
+					isVar = true
 					field = a.Ident[0]
 				}
-			case *parse.VariableNode:
-				isVar = true
-				field = a.Ident[0]
 			}
-		}
-		if field == "" {
-			continue
-		}
-		pipe := ""
-		if len(cmds) >= 2 && len(cmds[len(cmds)-1].Args) == 1 {
-			if id, ok := cmds[len(cmds)-1].Args[0].(*parse.IdentifierNode); ok {
-				pipe = id.Ident
+			if field == "" {
+				continue
 			}
-		}
-		if pipe == "PN" {
-			viaPN[field] = true
-		}
-		if isVar {
-			// $name | PN, $cs / $subr after `len … RD`
-			uses = append(uses, use{field, pipe, it.action})
-			continue
-		}
-		if ft, ok := ftype[field]; ok {
-			if b, ok := ft.Underlying().(*types.Basic); ok && b.Kind() == types.String {
-				uses = append(uses, use{field, pipe, it.action})
+			pipe := ""
+			if len(cmds) >= 2 && len(cmds[len(cmds)-1].Args) == 1 {
+				if id, ok := cmds[len(cmds)-1].Args[0].(*parse.IdentifierNode); ok {
+					pipe = id.Ident
+				}
+			}
+			isString := false
+			if ft, ok := ftype[field]; ok {
+				if b, ok := ft.Underlying().(*types.Basic); ok && b.Kind() == types.String {
+					isString = true
+				}
+			}
+			if pipe != "" && (isVar || isString) && classOf(pipe).class == "refuses" {
+				viaPN[field] = true
+			}
+			if isVar || isString {
+				// $name | PN, $cs / $subr after `len … RD`
+				uses = append(uses, use{field, pipe, it.action, onComment})
 			}
 		}
 	}
@@ -884,18 +914,37 @@ func (c *Ctx) templateEscaping(tk []tmplKey) {
 		n++
 		okU := false
 		why := ""
+		detail := ""
 		switch {
-		case u.pipe == "PS" || u.pipe == "PN" || u.pipe == "C":
-			okU = true
+		case u.pipe != "":
+			k := classOf(u.pipe)
+			switch k.class {
+			case "literal", "refuses", "guarded":
+				okU = true
+				why = "(" + u.pipe + ": " + k.class + ")"
+			case "noeol":
+				// enough on a comment line (every byte value is decided by the comment-line rule)
+				okU = u.onComment
+				why = "(" + u.pipe + " removes line ends, on a comment line)"
+				detail = " (" + u.pipe + " only removes line ends, which is not enough outside a comment)"
+			default:
+				detail = " (" + k.why + ")"
+			}
 		case u.field == "$cs" || u.field == "$subr":
 			okU = true // length-prefixed binary (checked by W-TEMPLATE in C08)
 		case u.field == "$index":
 			okU = true
 		case u.pipe == "" && viaPN[u.field]:
 			okU = true
-			why = "also written through PN, which refuses white space and delimiters"
+			why = "also written through a function that refuses white space and delimiters (the name writer)"
+		case u.pipe == "":
+			// a field that only ever holds constant text or a time in a constant layout
+			if closed, lit, how := c.tmplFieldText(u.field); closed && !strings.ContainsAny(lit, "\r\n\f()%\\") {
+				okU = true
+				why = "every value the module stores into the field is " + how
+			}
 		}
-		c.check(okU, "CL-ESCAPE", "type1 font program template", "string `"+u.pos+"` is escaped", token.NoPos, "PS/PN/C, or length-prefixed binary "+why, "the string field `"+u.pos+"` is written into the font program without escaping: a line break, parenthesis or `%` in it changes the program (header injection) or makes the file unreadable")
+		c.check(okU, "CL-ESCAPE", "type1 font program template", "string `"+u.pos+"` is escaped", token.NoPos, "written as a literal string or a checked name, sanitised on a comment line, or length-prefixed binary "+why, "the string field `"+u.pos+"` is written into the font program without escaping: a line break, parenthesis or `%` in it changes the program (header injection) or makes the file unreadable"+detail)
 	}
 	c.floor("CL-ESCAPE", 10)
 }
